@@ -164,4 +164,7 @@ _m("c12_cat_rows_cached_inv_root", "C12", LO, [("        R = _inv_root_from_root
 _m("c12_mul_constant_keeps_root_cache", "C12", LO, [("    def _mul_constant(\n        self: Float[LinearOperator, \"*batch M N\"], other: Union[float, torch.Tensor]\n    ) -> Float[LinearOperator, \"*batch M N\"]:",
                                                      "    def _mul_constant(\n        self: Float[LinearOperator, \"*batch M N\"], other: Union[float, torch.Tensor]\n    ) -> Float[LinearOperator, \"*batch M N\"]:\n        _c = dict(getattr(self, '_memoize_cache', {}))")],
    "placeholder, completed below")
+_m("c12_pivchol_adhoc_cache_by_rank", "C12", LO, [("        func = PivotedCholesky.apply\n        res, pivots = func(self.representation_tree(), rank, error_tol, *self.representation())\n",
+                                                    "        func = PivotedCholesky.apply\n        _pc = self.__dict__.setdefault('_pivchol_by_rank', {})\n        if (rank, error_tol) not in _pc:\n            _pc[(rank, error_tol)] = func(self.representation_tree(), rank, error_tol, *self.representation())\n        res, pivots = _pc[(rank, error_tol)]\n")],
+   "pivoted_cholesky kept in an ad-hoc per-object dict keyed by (rank, error_tol): the preconditioner_tolerance setting in force is forgotten (O6)")
 del CATALOGUE["c12_getitem_keeps_cache"], CATALOGUE["c12_mul_constant_keeps_root_cache"]
